@@ -54,6 +54,12 @@ UseBox(stroke, sw, k, ws, tr) ==
   LET geo == IF tr THEN ScaleBox(ShiftBox(RectBox, R(10), R(20)), k) ELSE RectBox
       d   == IF ws /\ stroke = "red" THEN RDiv(IF tr THEN RMul(sw, k) ELSE sw, R(2)) ELSE RZero
   IN Grow(geo, d)
+\* <use href="#g" x="10" y="20" transform="scale(k)"> of a group { rect (stroke under test), path (stroked red, width 2) }
+UseGroupBox(stroke, sw, k, ws, tr) ==
+  LET part(b, st, w) == LET geo == IF tr THEN ScaleBox(ShiftBox(b, R(10), R(20)), k) ELSE b
+                            d == IF ws /\ st = "red" THEN RDiv(IF tr THEN RMul(w, k) ELSE w, R(2)) ELSE RZero
+                        IN Grow(geo, d)
+  IN Union(part(RectBox, stroke, sw), part(Union(PathBox, Path2Box), "red", R(2)))
 Init ==
   \/ /\ kind = "bez"
      /\ \E n \in {3, 4}, axis \in {1, 2} : \E a \in [1..n -> 0..V] : arg = <<axis, a>> /\ exp = Bracket(a)
@@ -76,8 +82,8 @@ Init ==
           /\ exp = ContBox(cont, stroke, sw, k, ws, tr)
   \/ /\ kind = "cont"       \* a use element (parsed document, not reified): the box of what it renders
      /\ \E stroke \in {"none", "unset", "red"}, sw \in {R(3), Q(1, 2)}, k \in {R(1), R(2), Q(1, 2)}, ws \in BOOLEAN, tr \in BOOLEAN :
-          /\ arg = <<"use", stroke, sw, k, ws, tr>>
-          /\ exp = UseBox(stroke, sw, k, ws, tr)
+          /\ \/ arg = <<"use", stroke, sw, k, ws, tr>> /\ exp = UseBox(stroke, sw, k, ws, tr)
+             \/ arg = <<"use_group", stroke, sw, k, ws, tr>> /\ exp = UseGroupBox(stroke, sw, k, ws, tr)
 Next == UNCHANGED vars
 \* the bracket is well formed: minimum not above maximum, end points inside
 Sane == kind = "bez" =>
